@@ -5,7 +5,7 @@
    Notation: Jf s / Yf s / Wf s / Af s / bf s are the J_, Y_, W_, Ac_, Bc_ of state s viewed as functions; for a vector z
    [cost n k J Y z] = sum_{r<n} ((J z)_r - Y_r)^2 and [grad n k J Y z i] = (J^T (J z - Y))_i over the first n rows. *)
 From Coq Require Import Reals List Arith Lia Lra Bool.
-From Romea Require Import Num NumR LinAlgBModel LinAlgBProofs LsModel LsProofs LsHistoryProofs LsWeighted.
+From Romea Require Import Num NumR LinAlgBModel LinAlgBProofs LsModel LsProofs LsHistoryProofs LsWeighted LsEndToEnd.
 Import ListNotations.
 Local Open Scope R_scope.
 
@@ -198,6 +198,43 @@ Proof.
 Qed.
 Print Assumptions C07_ls_weighting_preserves_rank.
 
+(* THE PROPERTY ON THE CALLER'S DATA, through the state machine: after ANY history on one solver object (estimate size k kept),
+   loading a problem — setDataSize n, rows 0..n-1 of J / Y / W from the lists rows / ys / ws, setPreconditionner(A, b) — and calling
+   any of the three estimate functions returns A z + b where z satisfies the (weighted) normal equations and is the unique global
+   minimiser of the cost of THAT problem, written on rows / ys / ws themselves (J = mget rows, Y = vget ys, W = vget ws), not on the
+   buffers of the object: leftover rows of larger problems, earlier in-place weightings and earlier estimates do not enter.
+   The oracles are called on J^T J resp. J^T W^2 J of the caller's rows (conjuncts 2 and 3), which makes the contracts premises about
+   the caller's matrix. *)
+Theorem C07_ls_problem_after_any_history_returns_its_minimiser :
+  forall inverse_of svd_of (fill : R) (svd_fixed : bool) k hist (s : ls_state (T:=R)) outs n rows ys ws A b,
+  forallb keeps_estimate_size hist = true ->
+  ls_run ROps inverse_of svd_of fill svd_fixed hist (ls_new1 ROps k) = Some (s, outs) ->
+  (1 <= n)%nat -> (forall i, (i < n)%nat -> length (nth i rows []) = k) ->
+  let J := mget ROps rows in let Y := vget ROps ys in let W := vget ROps ws in
+  exists t o, ls_run ROps inverse_of svd_of fill svd_fixed (load_ops ROps n rows ys ws ++ [OpSetPrecond A b]) s = Some (t, o) /\
+    (forall i j, (i < k)%nat -> (j < k)%nat -> mget ROps (ls_JtJ ROps t) i j = nM n J i j) /\
+    (forall i j, (i < k)%nat -> (j < k)%nat -> mget ROps (ls_JtJ ROps (ls_weight ROps t)) i j = wnM n J W i j) /\
+    (inv_contract k (ls_JtJ ROps t) (inverse_of k (ls_JtJ ROps t)) ->
+     exists st x z, ls_estimate_chol ROps inverse_of t = Some (st, x) /\
+       (forall i, (i < k)%nat -> vget ROps x i = Rsum k (fun l => mget ROps A i l * z l) + vget ROps b i) /\
+       (forall a, (a < k)%nat -> grad n k J Y z a = 0) /\
+       (forall y, cost n k J Y z <= cost n k J Y y) /\
+       (forall y, cost n k J Y y = cost n k J Y z -> forall i, (i < k)%nat -> y i = z i)) /\
+    (svd_contract k (ls_JtJ ROps t) (svd_of k (ls_JtJ ROps t)) -> svd_all_above svd_of t ->
+     exists st x z, ls_estimate_svd ROps svd_of t = Some (st, x) /\
+       (forall i, (i < k)%nat -> vget ROps x i = Rsum k (fun l => mget ROps A i l * z l) + vget ROps b i) /\
+       (forall a, (a < k)%nat -> grad n k J Y z a = 0) /\
+       (forall y, cost n k J Y z <= cost n k J Y y) /\
+       (forall y, cost n k J Y y = cost n k J Y z -> forall i, (i < k)%nat -> y i = z i)) /\
+    (inv_contract k (ls_JtJ ROps (ls_weight ROps t)) (inverse_of k (ls_JtJ ROps (ls_weight ROps t))) ->
+     exists st x z, ls_weighted_estimate ROps inverse_of t = Some (st, x) /\
+       (forall i, (i < k)%nat -> vget ROps x i = Rsum k (fun l => mget ROps A i l * z l) + vget ROps b i) /\
+       (forall a, (a < k)%nat -> wgrad n k J Y W z a = 0) /\
+       (forall y, wcost n k J Y W z <= wcost n k J Y W y) /\
+       (forall y, wcost n k J Y W y = wcost n k J Y W z -> forall i, (i < k)%nat -> y i = z i)).
+Proof. exact ls_problem_after_any_history. Qed.
+Print Assumptions C07_ls_problem_after_any_history_returns_its_minimiser.
+
 (* the ORIGINAL SVD path (absolute test sigma > epsilon) is refuted: J = [eps], Y = [eps] is full rank with condition number
    1 and exact solution x = 1, the SVD below meets the contract, yet the returned x = eps^4 violates the normal equations.
    (The repaired tree uses the relative threshold; this theorem documents the defect that was fixed.) *)
@@ -234,3 +271,16 @@ Example C07_weighted_contract_satisfiable :
   (exists st x st2 x2, ls_weighted_estimate ROps wwit_inv wwit_state = Some (st, x) /\
                        ls_weighted_estimate ROps wwit_inv st = Some (st2, x2) /\ vget ROps x2 0 = 178 / 97).
 Proof. exact (conj wwit_contract (conj wwit_value wwit_twice_value)). Qed.
+(* the end-to-end theorem is not vacuous: history "grow to 3 rows", then the 1-row problem J = [1], Y = [2], W = [1] with the obvious
+   1x1 inverse oracle: the run exists and both inverse contracts hold on the state it reaches *)
+Example C07_end_to_end_premises_satisfiable :
+  let inv := fun (_ : nat) (m : list (list R)) => [[/ mget ROps m 0 0]] in
+  let svd := fun (_ : nat) (m : list (list R)) => (m, @nil R, m) in
+  exists s outs, ls_run ROps inv svd 0 true [OpSetDataSize 3] (ls_new1 ROps 1) = Some (s, outs) /\
+  exists t o, ls_run ROps inv svd 0 true (load_ops ROps 1 [[1]] [2] [1] ++ [OpSetPrecond [[1]] [0]]) s = Some (t, o) /\
+    inv_contract 1 (ls_JtJ ROps t) (inv 1%nat (ls_JtJ ROps t)) /\
+    inv_contract 1 (ls_JtJ ROps (ls_weight ROps t)) (inv 1%nat (ls_JtJ ROps (ls_weight ROps t))).
+Proof.
+  intros inv svd. eexists. eexists. split; [reflexivity|]. eexists. eexists. split; [reflexivity|].
+  split; intros i j Hi Hj; assert (i = 0%nat) by lia; assert (j = 0%nat) by lia; subst; cbn; unfold delta; cbn; field.
+Qed.
